@@ -149,11 +149,13 @@ Record limcase := {
   lm_id : Z;
   lm_ce : string;
   lm_decoded : Z;                 (* bytes of the payload before Content-Encoding *)
+  lm_inner : Z;                   (* /ingest: bytes the gzip layer of the pprof body itself inflates to (0: none); fix 5 *)
+  lm_bomb : bool;                 (* the inner layer is not a profile: refused whatever its size *)
   lm_limit : Z;                   (* pbPool.limit the harness configured *)
   lm_obs : obs
 }.
 (* lm_decoded: the bytes of the payload before Content-Encoding -- the body itself when there is none *)
-Definition lim_over (c : limcase) : bool := (lm_limit c <? lm_decoded c).
+Definition lim_over (c : limcase) : bool := (lm_limit c <? lm_decoded c) || (lm_limit c <? lm_inner c) || lm_bomb c.
 Definition lim_over_v3 (c : limcase) : bool := negb (String.eqb (lm_ce c) "") && (lm_limit c <? lm_decoded c).
 Definition lim_predict (c : limcase) : expect := if lim_over c then AnyError else Exact C2xx.
 Definition lim_spec_ok (c : limcase) : bool :=
